@@ -4,9 +4,10 @@ import Proofs.C10
 # C10 — the replica map as a function of the history of policy events
 
 Model: `Model/PlacementPol.lean` (`polStep` mirrors tokenAwareHostPolicy's AddHost / AddHosts / RemoveHost / HostUp /
-HostDown / SetPartitioner / KeyspaceChanged with cowHostList, resetTokenRing and updateReplicas; the environment event
-`setSchema` changes what getKeyspaceMetadata answers).  Helper lemmas in namespace `C10Pol`, the property theorems in
-namespace `C10` at the end of the file.  All theorems are by induction over the event list (invariant `Inv`).
+HostDown / SetPartitioner / KeyspaceChanged with cowHostList, resetTokenRing, updateReplicas and — the repair of
+KF-C10-4 — updateAllReplicas; the environment event `setSchema` changes what getKeyspaceMetadata answers).  Helper
+lemmas in namespace `C10Pol`, the property theorems in namespace `C10` at the end of the file.  All theorems are by
+induction over the event list (invariant `Inv`).
 -/
 namespace C10Pol
 open Placement PlacementPol C10Lookup C10Simple C10Nts C10NtsNodup C10NtsSpec C10SpecDedup C10NtsLookup
@@ -19,6 +20,100 @@ theorem replicaMapOf_ok (ring : List Entry) (strat : Strat) (e : Crash) :
   | simple rf => simp [replicaMapOf]
   | nts rfs => simp [replicaMapOf, C10.C10_no_panic]
   | unusable => simp [replicaMapOf]
+
+theorem getKs_dropKs (f : RepTab) (ks k : Nat) : getKs (dropKs f ks) k = if k = ks then none else getKs f k := by
+  induction f with
+  | nil => simp [dropKs, getKs]
+  | cons e rest ih =>
+    obtain ⟨a, v⟩ := e
+    unfold dropKs at ih ⊢
+    by_cases ha : a = ks
+    · subst ha
+      have : List.filter (fun e : Nat × (Part × ReplicaRing) => !(e.1 == a)) ((a, v) :: rest)
+          = List.filter (fun e => !(e.1 == a)) rest := by simp
+      rw [this, ih]
+      by_cases hk : k = a
+      · simp [hk]
+      · have : ¬ a = k := fun h => hk h.symm
+        simp [hk, getKs, this]
+    · have : List.filter (fun e : Nat × (Part × ReplicaRing) => !(e.1 == ks)) ((a, v) :: rest)
+          = (a, v) :: List.filter (fun e => !(e.1 == ks)) rest := by simp [ha]
+      rw [this]
+      unfold getKs
+      rw [ih]
+      by_cases hak : a = k
+      · subst hak; simp [ha]
+      · simp [hak]
+
+theorem getKs_setKs (f : RepTab) (ks k : Nat) (v : Part × ReplicaRing) :
+    getKs (setKs f ks v) k = if k = ks then some v else getKs f k := by
+  have h0 : getKs (setKs f ks v) k = if ks = k then some v else getKs (dropKs f ks) k := rfl
+  rw [h0]
+  by_cases hk : k = ks
+  · subst hk; simp
+  · have : ¬ ks = k := fun h => hk h.symm
+    simp only [this, if_false, hk, getKs_dropKs]
+
+theorem getKs_none_of_not_key (f : RepTab) (k : Nat) (h : k ∉ keysOf f) : getKs f k = none := by
+  induction f with
+  | nil => rfl
+  | cons e rest ih =>
+    obtain ⟨a, v⟩ := e
+    simp only [keysOf, List.map_cons, List.mem_cons, not_or] at h
+    unfold getKs
+    have : ¬ a = k := fun h' => h.1 h'.symm
+    simp only [this, if_false]
+    exact ih h.2
+
+def addFresh (fr : List Nat) (ks : Nat) : List Nat := if ks ∈ fr then fr else fr ++ [ks]
+
+theorem mem_addFresh (fr : List Nat) (ks k : Nat) : k ∈ addFresh fr ks ↔ (k ∈ fr ∨ k = ks) := by
+  unfold addFresh
+  by_cases h : ks ∈ fr
+  · simp only [h, if_true]
+    constructor
+    · exact Or.inl
+    · rintro (h1 | h1)
+      · exact h1
+      · exact h1 ▸ h
+  · simp [h]
+
+/-- the two shapes of the result of `updateReplicas` (the panic branch is impossible) -/
+theorem update_cases (s : PolState) (ks : Nat) :
+    updateReplicas s ks = { s with replicas := dropKs s.replicas ks, fresh := addFresh s.fresh ks } ∨
+    ∃ v, updateReplicas s ks = { s with replicas := setKs s.replicas ks v, fresh := addFresh s.fresh ks } := by
+  unfold updateReplicas addFresh
+  cases s.schema ks with
+  | none => exact Or.inl rfl
+  | some strat =>
+    cases s.ring with
+    | none => exact Or.inl rfl
+    | some pr =>
+      obtain ⟨p, ring⟩ := pr
+      simp only
+      cases hm : replicaMapOf ring strat with
+      | none => exact Or.inl rfl
+      | some r =>
+        cases r with
+        | error e => exact absurd hm (replicaMapOf_ok ring strat e)
+        | ok rr => exact Or.inr ⟨(p, rr), rfl⟩
+
+theorem update_frame (s : PolState) (ks : Nat) :
+    (updateReplicas s ks).crashed = s.crashed ∧
+    (updateReplicas s ks).ring = s.ring ∧ (updateReplicas s ks).part = s.part ∧
+    (updateReplicas s ks).hosts = s.hosts ∧ (updateReplicas s ks).schema = s.schema ∧
+    (updateReplicas s ks).sessKs = s.sessKs ∧
+    (∀ k, k ≠ ks → (updateReplicas s ks).entry k = s.entry k) ∧
+    (∀ k, k ∈ (updateReplicas s ks).fresh ↔ (k ∈ s.fresh ∨ k = ks)) := by
+  rcases update_cases s ks with h | ⟨v, h⟩
+  · rw [h]
+    refine ⟨rfl, rfl, rfl, rfl, rfl, rfl, ?_, mem_addFresh s.fresh ks⟩
+    intro k hk
+    simp only [PolState.entry, getKs_dropKs, hk, if_false]
+  · rw [h]
+    refine ⟨rfl, rfl, rfl, rfl, rfl, rfl, ?_, mem_addFresh s.fresh ks⟩
+    intro k hk
+    simp only [PolState.entry, getKs_setKs, hk, if_false]
 
 /-! ## what an entry has to be, from the current environment -/
 
@@ -43,58 +138,133 @@ def expected (s : PolState) (ks : Nat) : Option (Part × ReplicaRing) := expecte
 def tagged (part : Part) (hosts : List PHost) : Option (Part × List Entry) :=
   (curRingOf part hosts).map (fun r => (part, r))
 
-/-! ## updateReplicas -/
+/-! ## updateReplicas, updateAllReplicas -/
 
-theorem update_spec (s : PolState) (ks : Nat) (hr : s.ring = tagged s.part s.hosts) :
-    (updateReplicas s ks).crashed = s.crashed ∧
-    (updateReplicas s ks).ring = s.ring ∧ (updateReplicas s ks).part = s.part ∧
-    (updateReplicas s ks).hosts = s.hosts ∧ (updateReplicas s ks).schema = s.schema ∧
-    (updateReplicas s ks).sessKs = s.sessKs ∧
-    (updateReplicas s ks).replicas ks = expected s ks ∧
-    (∀ k, k ≠ ks → (updateReplicas s ks).replicas k = s.replicas k) ∧
-    (∀ k, k ∈ (updateReplicas s ks).fresh ↔ (k ∈ s.fresh ∨ k = ks)) := by
-  have hfr : ∀ k, k ∈ (if ks ∈ s.fresh then s.fresh else s.fresh ++ [ks]) ↔ (k ∈ s.fresh ∨ k = ks) := by
-    intro k
-    by_cases h : ks ∈ s.fresh
-    · simp only [h, if_true]
-      constructor
-      · exact Or.inl
-      · rintro (h1 | h1)
-        · exact h1
-        · exact h1 ▸ h
-    · simp [h]
+/-- on the ring of the current hosts `updateReplicas` leaves exactly the expected entry for its keyspace -/
+theorem update_entry (s : PolState) (ks : Nat) (hr : s.ring = tagged s.part s.hosts) :
+    (updateReplicas s ks).entry ks = expected s ks := by
   unfold updateReplicas expected expectedOf
   unfold tagged at hr
   cases hsch : s.schema ks with
   | none =>
-    simp only [dropKs, if_true, true_and]
-    refine ⟨?_, ?_, hfr⟩
-    · cases curRingOf s.part s.hosts <;> rfl
-    · intro k hk; simp [hk]
+    simp only [PolState.entry, getKs_dropKs, if_true]
+    cases curRingOf s.part s.hosts <;> rfl
   | some strat =>
     cases hcr : curRingOf s.part s.hosts with
     | none =>
       rw [hcr] at hr
       simp only [Option.map_none] at hr
-      simp only [hr, dropKs, if_true, true_and]
-      refine ⟨?_, hfr⟩
-      intro k hk; simp [hk]
+      simp only [hr, PolState.entry, getKs_dropKs, if_true]
     | some ring =>
       rw [hcr] at hr
       simp only [Option.map_some] at hr
       simp only [hr]
       cases hm : replicaMapOf ring strat with
-      | none =>
-        simp only [dropKs, if_true, true_and]
-        refine ⟨?_, hfr⟩
-        intro k hk; simp [hk]
+      | none => simp only [PolState.entry, getKs_dropKs, if_true]
       | some r =>
         cases r with
         | error e => exact absurd hm (replicaMapOf_ok ring strat e)
-        | ok rr =>
-          simp only [setKs, if_true, true_and]
-          refine ⟨?_, hfr⟩
-          intro k hk; simp [hk]
+        | ok rr => simp only [PolState.entry, getKs_setKs, if_true]
+
+theorem expected_congr (s' s : PolState) (h3 : s'.part = s.part) (h4 : s'.hosts = s.hosts) (h5 : s'.schema = s.schema)
+    (k : Nat) : expected s' k = expected s k := by
+  simp only [expected, h3, h4, h5]
+
+/-- `updateReplicas` for every keyspace of a list, on the ring of the current hosts: the listed keyspaces get exactly the
+expected entry, every other entry is untouched -/
+theorem fold_spec (L : List Nat) : ∀ (s : PolState), s.ring = tagged s.part s.hosts →
+    (L.foldl updateReplicas s).crashed = s.crashed ∧
+    (L.foldl updateReplicas s).ring = s.ring ∧ (L.foldl updateReplicas s).part = s.part ∧
+    (L.foldl updateReplicas s).hosts = s.hosts ∧ (L.foldl updateReplicas s).schema = s.schema ∧
+    (L.foldl updateReplicas s).sessKs = s.sessKs ∧
+    (∀ k, (L.foldl updateReplicas s).entry k = if k ∈ L then expected s k else s.entry k) ∧
+    (∀ k, k ∈ (L.foldl updateReplicas s).fresh ↔ (k ∈ s.fresh ∨ k ∈ L)) := by
+  induction L with
+  | nil => intro s _; simp
+  | cons a rest ih =>
+    intro s hr
+    obtain ⟨h1, h2, h3, h4, h5, h6, h7, h8⟩ := update_frame s a
+    have hr1 : (updateReplicas s a).ring = tagged (updateReplicas s a).part (updateReplicas s a).hosts := by
+      rw [h2, h3, h4]; exact hr
+    obtain ⟨i1, i2, i3, i4, i5, i6, i7, i8⟩ := ih (updateReplicas s a) hr1
+    simp only [List.foldl_cons]
+    refine ⟨i1.trans h1, i2.trans h2, i3.trans h3, i4.trans h4, i5.trans h5, i6.trans h6, ?_, ?_⟩
+    · intro k
+      rw [i7 k, expected_congr _ s h3 h4 h5]
+      by_cases hk : k ∈ rest
+      · simp [hk]
+      · by_cases hka : k = a
+        · subst hka
+          simp only [hk, if_false, List.mem_cons, true_or, if_true]
+          exact update_entry s k hr
+        · simp only [hk, if_false, List.mem_cons, hka, or_self]
+          exact h7 k hka
+    · intro k
+      rw [i8 k, h8 k]
+      simp only [List.mem_cons]
+      constructor
+      · rintro ((h | h) | h)
+        · exact Or.inl h
+        · exact Or.inr (Or.inl h)
+        · exact Or.inr (Or.inr h)
+      · rintro (h | h | h)
+        · exact Or.inl (Or.inl h)
+        · exact Or.inl (Or.inr h)
+        · exact Or.inr h
+
+/-- without any assumption on the ring: what `updateReplicas` over a list never touches, and the ghost field -/
+theorem fold_frame (L : List Nat) : ∀ (s : PolState),
+    (L.foldl updateReplicas s).crashed = s.crashed ∧ (L.foldl updateReplicas s).schema = s.schema ∧
+    (L.foldl updateReplicas s).sessKs = s.sessKs ∧
+    (∀ k, k ∉ L → (L.foldl updateReplicas s).entry k = s.entry k) ∧
+    (∀ k, k ∈ (L.foldl updateReplicas s).fresh ↔ (k ∈ s.fresh ∨ k ∈ L)) := by
+  induction L with
+  | nil => intro s; simp
+  | cons a rest ih =>
+    intro s
+    obtain ⟨h1, _, _, _, h5, h6, h7, h8⟩ := update_frame s a
+    obtain ⟨i1, i5, i6, i7, i8⟩ := ih (updateReplicas s a)
+    simp only [List.foldl_cons]
+    refine ⟨i1.trans h1, i5.trans h5, i6.trans h6, ?_, ?_⟩
+    · intro k hk
+      simp only [List.mem_cons, not_or] at hk
+      rw [i7 k hk.2, h7 k hk.1]
+    · intro k
+      rw [i8 k, h8 k]
+      simp only [List.mem_cons]
+      constructor
+      · rintro ((h | h) | h)
+        · exact Or.inl h
+        · exact Or.inr (Or.inl h)
+        · exact Or.inr (Or.inr h)
+      · rintro (h | h | h)
+        · exact Or.inl (Or.inl h)
+        · exact Or.inl (Or.inr h)
+        · exact Or.inr h
+
+/-- `updateAllReplicas` reaches the session keyspace and every keyspace with an entry -/
+theorem mem_allKeyspaces (s : PolState) (k : Nat) :
+    k ∈ allKeyspaces s ↔ (k = s.sessKs ∨ k ∈ keysOf s.replicas) := by
+  unfold allKeyspaces
+  simp only [List.mem_cons, List.mem_filter, Bool.not_eq_true', beq_eq_false_iff_ne, ne_eq]
+  constructor
+  · rintro (h | h)
+    · exact Or.inl h
+    · exact Or.inr h.1
+  · rintro (h | h)
+    · exact Or.inl h
+    · by_cases hk : k = s.sessKs
+      · exact Or.inl hk
+      · exact Or.inr ⟨h, hk⟩
+
+theorem entry_none_of_not_all (s : PolState) (k : Nat) (h : k ∉ allKeyspaces s) : s.entry k = none := by
+  rw [mem_allKeyspaces] at h
+  exact getKs_none_of_not_key s.replicas k (fun hk => h (Or.inr hk))
+
+theorem held_mem_allKeyspaces (s : PolState) (k : Nat) (h : (s.entry k).isSome = true) : k ∈ allKeyspaces s := by
+  by_cases hk : k ∈ allKeyspaces s
+  · exact hk
+  · rw [entry_none_of_not_all s k hk] at h; simp at h
 
 /-! ## the invariant -/
 
@@ -102,29 +272,33 @@ def EvOK : PolEvent → Prop
   | .setPartitioner p => p.supported = true
   | _ => True
 
-/-- the session keyspace's entry is absent or the replica map of SOME strategy on the ring of the current hosts -/
-def SessOnRing (s : PolState) : Prop :=
-  s.replicas s.sessKs = none ∨
+/-- the entry of keyspace `ks` is absent or the replica map of SOME strategy on the ring of the current hosts, with
+tokens of the current partitioner's type -/
+def OnRing (s : PolState) (ks : Nat) : Prop :=
+  s.entry ks = none ∨
   ∃ strat ring rr, curRingOf s.part s.hosts = some ring ∧ replicaMapOf ring strat = some (.ok rr) ∧
-    s.replicas s.sessKs = some (s.part, rr)
+    s.entry ks = some (s.part, rr)
 
 structure Inv (s : PolState) : Prop where
   nocrash : s.crashed = false
   ring : s.ring = tagged s.part s.hosts
-  fresh : ∀ ks ∈ s.fresh, s.replicas ks = expected s ks
-  sess : SessOnRing s
+  /-- a keyspace whose schema has not changed since the policy last read it: NO entry, or exactly the expected one -/
+  fresh : ∀ ks ∈ s.fresh, s.entry ks = none ∨ s.entry ks = expected s ks
+  sess : s.sessKs ∈ s.fresh → s.entry s.sessKs = expected s s.sessKs
+  /-- EVERY keyspace, fresh or not: no entry computed for a previous ring survives -/
+  onring : ∀ ks, OnRing s ks
 
 theorem inv_init (sk : Nat) (sch : Nat → Option Strat) : Inv (polInit sk sch) :=
-  ⟨rfl, rfl, by intro ks h; simp [polInit] at h, Or.inl rfl⟩
+  ⟨rfl, rfl, by intro ks h; simp [polInit] at h, by intro h; simp [polInit] at h, fun _ => Or.inl rfl⟩
 
-theorem sess_of_expected (s : PolState) (h : s.replicas s.sessKs = expected s s.sessKs) : SessOnRing s := by
-  unfold SessOnRing
+theorem onring_of_expected (s : PolState) (ks : Nat) (h : s.entry ks = expected s ks) : OnRing s ks := by
+  unfold OnRing
   rw [h]
   unfold expected expectedOf
   cases hcr : curRingOf s.part s.hosts with
   | none => exact Or.inl rfl
   | some ring =>
-    cases hsch : s.schema s.sessKs with
+    cases hsch : s.schema ks with
     | none => exact Or.inl rfl
     | some strat =>
       cases hm : replicaMapOf ring strat with
@@ -134,30 +308,63 @@ theorem sess_of_expected (s : PolState) (h : s.replicas s.sessKs = expected s s.
         | error e => left; simp only [hm]
         | ok rr => right; exact ⟨strat, ring, rr, rfl, hm, by simp only [hm]⟩
 
-/-- the ring-changing events: `hosts` / `part` already updated, then resetTokenRing + updateReplicas(session keyspace) -/
+theorem reset_tagged (s : PolState) (hp : s.part.supported = true ∨ s.ring = none) :
+    resetTokenRing s = tagged s.part s.hosts := by
+  unfold resetTokenRing tagged curRingOf
+  rcases hp with hp | hp
+  · simp [hp]
+  · by_cases h : s.part.supported = true
+    · simp [h]
+    · simp [h, hp]
+
+/-- what a ring-changing event leaves (`hosts` / `part` already updated): the ring of the current hosts, and for the
+session keyspace and EVERY keyspace that had an entry exactly the expected entry; no other keyspace has an entry -/
+theorem recompute_spec (s : PolState) (hc : s.crashed = false)
+    (hp : s.part.supported = true ∨ s.ring = none) :
+    (recompute s).crashed = false ∧ (recompute s).ring = tagged s.part s.hosts ∧
+    (recompute s).part = s.part ∧ (recompute s).hosts = s.hosts ∧ (recompute s).schema = s.schema ∧
+    (recompute s).sessKs = s.sessKs ∧
+    (∀ k, (recompute s).entry k = if k ∈ allKeyspaces s then expected s k else none) ∧
+    (∀ k, k ∈ (recompute s).fresh ↔ (k ∈ s.fresh ∨ k ∈ allKeyspaces s)) := by
+  have hreset := reset_tagged s hp
+  obtain ⟨h1, h2, h3, h4, h5, h6, h7, h8⟩ :=
+    fold_spec (allKeyspaces s) { s with ring := resetTokenRing s } hreset
+  have hnc : (updateAllReplicas { s with ring := resetTokenRing s }).crashed = false := by
+    unfold updateAllReplicas
+    exact h1.trans hc
+  have hrec : recompute s = (allKeyspaces s).foldl updateReplicas { s with ring := resetTokenRing s } := by
+    unfold recompute
+    simp only [hnc, Bool.false_eq_true, if_false]
+    rfl
+  rw [hrec]
+  refine ⟨h1.trans hc, h2.trans hreset, h3, h4, h5, h6, ?_, h8⟩
+  intro k
+  have h7k := h7 k
+  by_cases hk : k ∈ allKeyspaces s
+  · rw [if_pos hk] at h7k ⊢
+    exact h7k
+  · rw [if_neg hk] at h7k ⊢
+    rw [h7k]
+    exact entry_none_of_not_all s k hk
+
 theorem inv_recompute (s : PolState) (hc : s.crashed = false)
     (hp : s.part.supported = true ∨ s.ring = none) : Inv (recompute s) := by
-  have hreset : resetTokenRing s = tagged s.part s.hosts := by
-    unfold resetTokenRing tagged curRingOf
-    rcases hp with hp | hp
-    · simp [hp]
-    · by_cases h : s.part.supported = true
-      · simp [h]
-      · simp [h, hp]
-  obtain ⟨h1, h2, h3, h4, h5, h6, h7, _, h9⟩ :=
-    update_spec { s with ring := resetTokenRing s, fresh := [] } s.sessKs hreset
-  have hnc : (updateReplicas { s with ring := resetTokenRing s, fresh := [] } s.sessKs).crashed = false := by
-    rw [h1]; exact hc
-  unfold recompute
-  simp only [hnc, Bool.false_eq_true, if_false]
-  refine ⟨hnc, ?_, ?_, ?_⟩
-  · rw [h2, h3, h4]; exact hreset
-  · intro ks hks
-    have : ks = s.sessKs := by simpa using (h9 ks).mp hks
-    subst this
-    rw [h7]; simp only [expected, h3, h4, h5]
-  · apply sess_of_expected
-    rw [h6, h7]; simp only [expected, h3, h4, h5, h6]
+  obtain ⟨h1, h2, h3, h4, h5, h6, h7, h8⟩ := recompute_spec s hc hp
+  have hexp : ∀ k, expected (recompute s) k = expected s k := fun k => expected_congr _ s h3 h4 h5 k
+  have hent : ∀ k, (recompute s).entry k = none ∨ (recompute s).entry k = expected (recompute s) k := by
+    intro k
+    rw [h7 k, hexp k]
+    by_cases hk : k ∈ allKeyspaces s
+    · rw [if_pos hk]; exact Or.inr rfl
+    · rw [if_neg hk]; exact Or.inl rfl
+  refine ⟨h1, ?_, fun k _ => hent k, ?_, ?_⟩
+  · rw [h2, h3, h4]
+  · intro _
+    rw [h6, h7, hexp, if_pos ((mem_allKeyspaces s s.sessKs).mpr (Or.inl rfl))]
+  · intro k
+    rcases hent k with h | h
+    · exact Or.inl h
+    · exact onring_of_expected _ k h
 
 theorem polStep_nocrash (s : PolState) (e : PolEvent) (hc : s.crashed = false) :
     polStep s e = (match e with
@@ -207,34 +414,48 @@ theorem inv_step (s : PolState) (e : PolEvent) (hI : Inv s) (he : EvOK e) : Inv 
       exact inv_recompute _ hI.nocrash (Or.inl he)
   | keyspaceChanged ks =>
     dsimp only
-    obtain ⟨h1, h2, h3, h4, h5, h6, h7, h8, h9⟩ := update_spec s ks hI.ring
+    obtain ⟨h1, h2, h3, h4, h5, h6, h8, h9⟩ := update_frame s ks
+    have h7 := update_entry s ks hI.ring
     have hnc : (updateReplicas s ks).crashed = false := by rw [h1]; exact hI.nocrash
     rw [if_neg (by rw [hnc]; simp)]
-    have hexp : ∀ k, expected (updateReplicas s ks) k = expected s k := by
-      intro k; simp only [expected, h3, h4, h5]
-    refine ⟨hnc, ?_, ?_, ?_⟩
+    have hexp : ∀ k, expected (updateReplicas s ks) k = expected s k := fun k => expected_congr _ s h3 h4 h5 k
+    refine ⟨hnc, ?_, ?_, ?_, ?_⟩
     · rw [h2, h3, h4]; exact hI.ring
     · intro k hk
       rw [hexp]
       by_cases hkk : k = ks
-      · subst hkk; exact h7
+      · subst hkk; exact Or.inr h7
       · rw [h8 k hkk]
         rcases (h9 k).mp hk with h | h
         · exact hI.fresh k h
         · exact absurd h hkk
-    · by_cases hkk : s.sessKs = ks
-      · apply sess_of_expected
-        rw [h6, hexp, hkk]; exact h7
-      · unfold SessOnRing
-        rw [h6, h3, h4, h8 _ hkk]
-        exact hI.sess
+    · intro hs
+      rw [h6] at hs ⊢
+      rw [hexp]
+      by_cases hkk : s.sessKs = ks
+      · rw [hkk]; exact h7
+      · rw [h8 _ hkk]
+        rcases (h9 _).mp hs with h | h
+        · exact hI.sess h
+        · exact absurd h hkk
+    · intro k
+      by_cases hkk : k = ks
+      · subst hkk
+        exact onring_of_expected _ k (by rw [hexp]; exact h7)
+      · unfold OnRing
+        rw [h3, h4, h8 k hkk]
+        exact hI.onring k
   | setSchema ks v =>
     dsimp only
-    refine ⟨hI.nocrash, hI.ring, ?_, hI.sess⟩
-    intro k hk
-    simp only [List.mem_filter, Bool.not_eq_true', beq_eq_false_iff_ne, ne_eq] at hk
-    simp only [expected, hk.2, if_false]
-    exact hI.fresh k hk.1
+    refine ⟨hI.nocrash, hI.ring, ?_, ?_, hI.onring⟩
+    · intro k hk
+      simp only [List.mem_filter, Bool.not_eq_true', beq_eq_false_iff_ne, ne_eq] at hk
+      simp only [expected, hk.2, if_false]
+      exact hI.fresh k hk.1
+    · intro hk
+      simp only [List.mem_filter, Bool.not_eq_true', beq_eq_false_iff_ne, ne_eq] at hk
+      simp only [expected, hk.2, if_false]
+      exact hI.sess hk.1
 
 theorem inv_run (evs : List PolEvent) : ∀ (s : PolState), Inv s → (∀ e ∈ evs, EvOK e) → Inv (polRun s evs) := by
   induction evs with
@@ -247,26 +468,13 @@ theorem inv_run (evs : List PolEvent) : ∀ (s : PolState), Inv s → (∀ e ∈
 
 /-! ## no panic escapes, for EVERY history (also with unsupported partitioners) -/
 
-theorem update_crashed (s : PolState) (ks : Nat) : (updateReplicas s ks).crashed = s.crashed := by
-  unfold updateReplicas
-  cases s.schema ks with
-  | none => rfl
-  | some strat =>
-    cases hr : s.ring with
-    | none => rfl
-    | some pr =>
-      obtain ⟨p, ring⟩ := pr
-      simp only
-      cases hm : replicaMapOf ring strat with
-      | none => rfl
-      | some r =>
-        cases r with
-        | error e => exact absurd hm (replicaMapOf_ok ring strat e)
-        | ok rr => rfl
+theorem update_crashed (s : PolState) (ks : Nat) : (updateReplicas s ks).crashed = s.crashed :=
+  (update_frame s ks).1
 
 theorem recompute_crashed (s : PolState) (hc : s.crashed = false) : (recompute s).crashed = false := by
-  have h := update_crashed { s with ring := resetTokenRing s, fresh := [] } s.sessKs
-  have hnc : (updateReplicas { s with ring := resetTokenRing s, fresh := [] } s.sessKs).crashed = false := by
+  have h := (fold_frame (allKeyspaces { s with ring := resetTokenRing s }) { s with ring := resetTokenRing s }).1
+  have hnc : (updateAllReplicas { s with ring := resetTokenRing s }).crashed = false := by
+    unfold updateAllReplicas
     rw [h]; exact hc
   unfold recompute
   simp only [hnc, Bool.false_eq_true, if_false]
@@ -374,11 +582,12 @@ theorem pick_nts (ring : List Entry) (rfs : List (Nat × Nat)) (t : Int) (hs : S
     | nil => exact absurd he hne
     | cons a r => rfl
 
-theorem lookup_of_inv (s : PolState) (hI : Inv s) (ks : Nat) (hf : ks ∈ s.fresh) (t : Int)
+
+/-- the lookup Pick makes equals the specification whenever the entry is the expected one -/
+theorem lookup_of_expected (s : PolState) (hI : Inv s) (ks : Nat) (hrep : s.entry ks = expected s ks) (t : Int)
     (hs : ∀ ring, PlacementPol.Spec.curRing s = some ring → Sorted ring)
     (hk : ∀ k rfs, s.schema k = some (.nts rfs) → (rfs.map (·.1)).Nodup) :
     polLookup s ks t = PlacementPol.Spec.lookup s ks t := by
-  have hrep := hI.fresh ks hf
   have hring := hI.ring
   unfold polLookup PlacementPol.Spec.lookup
   rw [curRing_eq] at hs ⊢
@@ -414,6 +623,59 @@ theorem lookup_of_inv (s : PolState) (hI : Inv s) (ks : Nat) (hf : ks ∈ s.fres
         simp only [replicaMapOf, C10.C10_no_panic] at hrep
         simp only [hrep, ne_eq, not_true_eq_false, and_false, if_false]
         rw [pick_nts ring rfs t hsr (hk ks rfs hsch)]
+
+/-- no entry is ever searched with a token of another partitioner's type: for EVERY keyspace -/
+theorem lookup_no_type_panic (s : PolState) (hI : Inv s) (ks : Nat) (t : Int) : polLookup s ks t ≠ .typePanic := by
+  have hring := hI.ring
+  unfold polLookup
+  unfold tagged at hring
+  cases hcr : curRingOf s.part s.hosts with
+  | none =>
+    rw [hcr] at hring
+    simp only [Option.map_none] at hring
+    simp [hring]
+  | some ring =>
+    rw [hcr] at hring
+    simp only [Option.map_some] at hring
+    simp only [hring]
+    rcases hI.onring ks with h | ⟨strat, ring', rr, _, _, h⟩
+    · simp [h]
+    · simp [h]
+
+/-- the specification expects NO entry: no ring, or the schema is unreadable / has no usable strategy -/
+theorem expected_none_of_noEntry (s : PolState) (ks : Nat) (h : PlacementPol.Spec.noEntryExpected s ks = true) :
+    expected s ks = none := by
+  unfold PlacementPol.Spec.noEntryExpected at h
+  rw [curRing_eq] at h
+  unfold expected expectedOf
+  cases hcr : curRingOf s.part s.hosts with
+  | none => rfl
+  | some ring =>
+    rw [hcr] at h
+    cases hsch : s.schema ks with
+    | none => rfl
+    | some strat =>
+      rw [hsch] at h
+      cases strat with
+      | unusable => simp [replicaMapOf]
+      | simple rf => simp at h
+      | nts rfs => simp at h
+
+/-- a settled keyspace holds exactly the expected entry -/
+theorem settled_expected (s : PolState) (hI : Inv s) (ks : Nat) (h : settled s ks = true) :
+    s.entry ks = expected s ks := by
+  unfold settled at h
+  simp only [Bool.and_eq_true, Bool.or_eq_true, List.contains_iff_mem, beq_iff_eq] at h
+  obtain ⟨hf, hc⟩ := h
+  rcases hc with (hc | hc) | hc
+  · rcases hI.fresh ks hf with h0 | h0
+    · rw [h0] at hc; simp at hc
+    · exact h0
+  · subst hc; exact hI.sess hf
+  · have he := expected_none_of_noEntry s ks hc
+    rcases hI.fresh ks hf with h0 | h0
+    · rw [h0, he]
+    · exact h0
 
 /-! ## every host of a replica map is a host of the ring it was computed on; every host of the ring is a current host -/
 
@@ -544,6 +806,7 @@ theorem expected_hosts (s : PolState) (ks : Nat) (q : Part) (rr : ReplicaRing)
           obtain ⟨_, rfl⟩ := hx
           exact curRing_hosts s ring hcr h (replicaMapOf_hosts ring strat rr' hm e he h hh)
 
+
 end C10Pol
 
 /-! # Property theorems -/
@@ -573,40 +836,92 @@ theorem C10_ring_follows_hosts (sk : Nat) (sch : Nat → Option Strat) (evs : Li
   unfold tagged
   cases curRingOf (after sk sch evs).part (after sk sch evs).hosts <;> rfl
 
-/-- `C10_replicas_follow_ring` (session keyspace, every admissible history): the entry the policy holds for the
-session keyspace is ABSENT or the replica map of some strategy ON THE RING OF THE CURRENT HOSTS — it is never a map
-computed for an earlier ring; and when the keyspace's schema has not changed behind the policy's back since the last
-event that read it (`sessKs ∈ fresh`) the entry is exactly what the CURRENT schema and the CURRENT ring give: the
-replica map of the current strategy, and NO entry when the schema is unreadable / unusable / there is no ring. -/
-theorem C10_replicas_follow_ring (sk : Nat) (sch : Nat → Option Strat) (evs : List PolEvent) (hev : Admissible evs) :
-    SessOnRing (after sk sch evs) ∧
-    ((after sk sch evs).sessKs ∈ (after sk sch evs).fresh →
-      (after sk sch evs).replicas (after sk sch evs).sessKs = expected (after sk sch evs) (after sk sch evs).sessKs) := by
+/-- `C10_replicas_follow_ring` (EVERY keyspace, every admissible history, no freshness needed): the entry the policy
+holds for a keyspace is ABSENT or the replica map of some strategy ON THE RING OF THE CURRENT HOSTS, with tokens of the
+current partitioner — it is never a map computed for an earlier ring (KF-C10-4 repaired: every ring change recomputes
+the session keyspace and every keyspace with an entry). -/
+theorem C10_replicas_follow_ring (sk : Nat) (sch : Nat → Option Strat) (evs : List PolEvent) (hev : Admissible evs)
+    (ks : Nat) : OnRing (after sk sch evs) ks :=
+  (inv_run evs _ (inv_init sk sch) hev).onring ks
+
+/-- `C10_replicas_all_keyspaces` (the FULL property; was `_partial`, restricted to keyspaces recomputed after the last
+ring change): after any admissible history, EVERY entry the policy holds — session keyspace or not — whose keyspace's
+schema has not changed behind the policy's back (`fresh`: no schema change without a KeyspaceChanged or ring change
+since) is exactly the replica map of the keyspace's CURRENT strategy on the ring of the CURRENT hosts. -/
+theorem C10_replicas_all_keyspaces (sk : Nat) (sch : Nat → Option Strat) (evs : List PolEvent)
+    (hev : Admissible evs) (ks : Nat) (hf : ks ∈ (after sk sch evs).fresh)
+    (hheld : ((after sk sch evs).entry ks).isSome = true) :
+    (after sk sch evs).entry ks = expected (after sk sch evs) ks := by
+  rcases (inv_run evs _ (inv_init sk sch) hev).fresh ks hf with h | h
+  · rw [h] at hheld; simp at hheld
+  · exact h
+
+/-- `C10_replicas_settled`: the same for the keyspaces WITHOUT entry where the specification is definite — the session
+keyspace (recomputed on every ring change whether it has an entry or not) and every keyspace for which no entry is
+expected (no ring / schema unreadable / no usable strategy): `settled` keyspaces hold exactly the expected entry. -/
+theorem C10_replicas_settled (sk : Nat) (sch : Nat → Option Strat) (evs : List PolEvent)
+    (hev : Admissible evs) (ks : Nat) (hst : settled (after sk sch evs) ks = true) :
+    (after sk sch evs).entry ks = expected (after sk sch evs) ks :=
+  settled_expected _ (inv_run evs _ (inv_init sk sch) hev) ks hst
+
+/-- `C10_unreadable_no_entry`: a fresh keyspace whose schema cannot be read holds no entry (Pick falls back to the
+primary owner taken from the current ring, `C10_pick_spec`). -/
+theorem C10_unreadable_no_entry (sk : Nat) (sch : Nat → Option Strat) (evs : List PolEvent)
+    (hev : Admissible evs) (ks : Nat) (hf : ks ∈ (after sk sch evs).fresh)
+    (hu : (after sk sch evs).schema ks = none) :
+    (after sk sch evs).entry ks = none := by
+  rcases (inv_run evs _ (inv_init sk sch) hev).fresh ks hf with h | h
+  · exact h
+  · rw [h]
+    unfold expected expectedOf
+    rw [hu]
+    cases curRingOf (after sk sch evs).part (after sk sch evs).hosts <;> rfl
+
+/-- `C10_no_departed_host`: after any admissible history, every host named in any replica list of ANY entry the
+policy holds (every keyspace, fresh or not) is in the policy's CURRENT host list — a host that left (RemoveHost) is
+never returned, a map computed for a previous ring is never consulted. -/
+theorem C10_no_departed_host (sk : Nat) (sch : Nat → Option Strat) (evs : List PolEvent) (hev : Admissible evs)
+    (ks : Nat) (q : Part) (rr : ReplicaRing) (hrr : (after sk sch evs).entry ks = some (q, rr))
+    (e : Int × List Host) (he : e ∈ rr) (h : Host) (hh : h ∈ e.2) :
+    ∃ p ∈ (after sk sch evs).hosts, p.h = h := by
   have hI : Inv (after sk sch evs) := inv_run evs _ (inv_init sk sch) hev
-  exact ⟨hI.sess, hI.fresh _⟩
+  rcases hI.onring ks with hn | ⟨strat, ring, rr', hcr, hm, hrep⟩
+  · rw [hn] at hrr; simp at hrr
+  · rw [hrep] at hrr
+    simp only [Option.some.injEq, Prod.mk.injEq] at hrr
+    obtain ⟨_, rfl⟩ := hrr
+    exact curRing_hosts _ ring hcr h (replicaMapOf_hosts ring strat rr' hm e he h hh)
 
-theorem updateReplicas_sessKs (s : PolState) (ks : Nat) : (updateReplicas s ks).sessKs = s.sessKs := by
-  unfold updateReplicas
-  cases s.schema ks with
-  | none => rfl
-  | some strat =>
-    cases s.ring with
-    | none => rfl
-    | some pr =>
-      obtain ⟨p, ring⟩ := pr
-      simp only
-      cases replicaMapOf ring strat with
-      | none => rfl
-      | some r => cases r <;> rfl
+/-- `C10_pick_no_type_panic`: after any admissible history — partitioner changes included — the lookup Pick makes never
+hits `token.Less`'s type assertion, for EVERY keyspace and token (the panic of KF-C10-4's partitioner variant). -/
+theorem C10_pick_no_type_panic (sk : Nat) (sch : Nat → Option Strat) (evs : List PolEvent) (hev : Admissible evs)
+    (ks : Nat) (t : Int) : polLookup (after sk sch evs) ks t ≠ .typePanic :=
+  lookup_no_type_panic _ (inv_run evs _ (inv_init sk sch) hev) ks t
 
-theorem recompute_sessKs (s : PolState) : (recompute s).sessKs = s.sessKs := by
-  unfold recompute
-  simp only
-  split
-  · rfl
-  · exact updateReplicas_sessKs _ _
+/-- `C10_pick_spec` (the spec-backed ops `prepl` / `spick`): after any admissible history, for every settled keyspace —
+in particular EVERY keyspace the policy holds an entry for and whose schema has not changed behind its back — and every
+token, what Pick reads from the policy's snapshot — `meta.replicas[ks].replicasFor(token)`, else
+`meta.tokenRing.GetHostForToken(token)` — is what the specification computes from the CURRENT environment alone:
+Cassandra's SimpleStrategy / NetworkTopologyStrategy placement for the strategy of the schema readable NOW on the ring
+of the CURRENT hosts, the primary owner of the current ring when the schema is unreadable / unusable / Cassandra places
+the token on no node, and "no ring" exactly while no partitioner is known.  In particular the lookup never panics.
+Standing hypotheses of all C10 theorems: ring tokens pairwise distinct (`Sorted`), rf maps with distinct keys. -/
+theorem C10_pick_spec (sk : Nat) (sch : Nat → Option Strat) (evs : List PolEvent) (hev : Admissible evs)
+    (ks : Nat) (hst : settled (after sk sch evs) ks = true) (t : Int)
+    (hs : ∀ ring, PlacementPol.Spec.curRing (after sk sch evs) = some ring → Sorted ring)
+    (hk : ∀ k rfs, (after sk sch evs).schema k = some (.nts rfs) → (rfs.map (·.1)).Nodup) :
+    polLookup (after sk sch evs) ks t = PlacementPol.Spec.lookup (after sk sch evs) ks t :=
+  have hI := inv_run evs _ (inv_init sk sch) hev
+  lookup_of_expected _ hI ks (settled_expected _ hI ks hst) t hs hk
 
 theorem polStep_sessKs (s : PolState) (e : PolEvent) : (polStep s e).sessKs = s.sessKs := by
+  have hrec : ∀ s : PolState, (recompute s).sessKs = s.sessKs := by
+    intro s
+    unfold recompute
+    simp only
+    split
+    · rfl
+    · exact (fold_frame _ _).2.2.1
   unfold polStep
   split
   · rfl
@@ -615,12 +930,12 @@ theorem polStep_sessKs (s : PolState) (e : PolEvent) : (polStep s e).sessKs = s.
       dsimp only
       split
       · rfl
-      · exact recompute_sessKs _
-    | addHosts ps => exact recompute_sessKs _
+      · exact hrec _
+    | addHosts ps => exact hrec _
     | removeHost a =>
       dsimp only
       split
-      · exact recompute_sessKs _
+      · exact hrec _
       · rfl
     | hostUp a => rfl
     | hostDown a => rfl
@@ -628,12 +943,12 @@ theorem polStep_sessKs (s : PolState) (e : PolEvent) : (polStep s e).sessKs = s.
       dsimp only
       split
       · rfl
-      · exact recompute_sessKs _
+      · exact hrec _
     | keyspaceChanged ks =>
       dsimp only
       split
       · rfl
-      · exact updateReplicas_sessKs _ _
+      · exact (update_frame _ _).2.2.2.2.2.1
     | setSchema ks v => rfl
 
 /-- the session keyspace is the one given to Init -/
@@ -650,104 +965,21 @@ theorem sessKs_after (sk : Nat) (sch : Nat → Option Strat) (evs : List PolEven
       rw [h1, polStep_sessKs]
   exact this evs _
 
-/-
-FULL PROPERTY (does NOT hold for the unchanged code): after any admissible history, for EVERY keyspace the policy holds
-an entry for, the entry is the replica map of the keyspace's current strategy on the ring of the current hosts.
-The code recomputes only the SESSION keyspace's entry when the ring changes (updateReplicas(meta, getKeyspaceName()) in
-AddHost / AddHosts / RemoveHost / SetPartitioner): the entry of any other keyspace — created by KeyspaceChanged(ks) —
-survives every later ring change unchanged (KF-C10-4, the replica-map side of KF-C11-5a): counterexamples
-`C10_cex_other_keyspace_stale`, `C10_cex_other_keyspace_departed_host`, `C10_cex_other_keyspace_type_panic`.
-The `_partial` theorem excludes exactly that: keyspace not in `fresh` = its schema changed without a KeyspaceChanged
-since, or it is not the session keyspace and the ring was recomputed after its last KeyspaceChanged.
--/
-
-/-- `C10_replicas_all_keyspaces_partial`: for every keyspace that is fresh — last (re)read by the policy after the last
-change of its schema and, unless it is the session keyspace, after the last recomputation of the ring — the entry is
-exactly the replica map of the CURRENT strategy on the ring of the CURRENT hosts, and there is NO entry when the
-schema is currently unreadable, has no usable strategy, or there is no ring. -/
-theorem C10_replicas_all_keyspaces_partial (sk : Nat) (sch : Nat → Option Strat) (evs : List PolEvent)
-    (hev : Admissible evs) (ks : Nat) (hf : ks ∈ (after sk sch evs).fresh) :
-    (after sk sch evs).replicas ks = expected (after sk sch evs) ks :=
-  (inv_run evs _ (inv_init sk sch) hev).fresh ks hf
-
-/-- `C10_unreadable_no_entry`: a fresh keyspace whose schema cannot be read holds no entry (Pick falls back to the
-primary owner taken from the current ring, `C10_pick_spec`). -/
-theorem C10_unreadable_no_entry (sk : Nat) (sch : Nat → Option Strat) (evs : List PolEvent)
-    (hev : Admissible evs) (ks : Nat) (hf : ks ∈ (after sk sch evs).fresh)
-    (hu : (after sk sch evs).schema ks = none) :
-    (after sk sch evs).replicas ks = none := by
-  rw [C10_replicas_all_keyspaces_partial sk sch evs hev ks hf]
-  unfold expected expectedOf
-  rw [hu]
-  cases curRingOf (after sk sch evs).part (after sk sch evs).hosts <;> rfl
-
-/-- `C10_no_departed_host`: after any admissible history, every host named in any replica list of the SESSION
-keyspace's entry (fresh or not), and of the entry of any fresh keyspace, is in the policy's CURRENT host list — a host
-that left (RemoveHost) is never returned, a map computed for a previous ring is never consulted. -/
-theorem C10_no_departed_host (sk : Nat) (sch : Nat → Option Strat) (evs : List PolEvent) (hev : Admissible evs)
-    (ks : Nat) (hks : ks = (after sk sch evs).sessKs ∨ ks ∈ (after sk sch evs).fresh)
-    (q : Part) (rr : ReplicaRing) (hrr : (after sk sch evs).replicas ks = some (q, rr))
-    (e : Int × List Host) (he : e ∈ rr) (h : Host) (hh : h ∈ e.2) :
-    ∃ p ∈ (after sk sch evs).hosts, p.h = h := by
-  have hI : Inv (after sk sch evs) := inv_run evs _ (inv_init sk sch) hev
-  rcases hks with hks | hks
-  · subst hks
-    rcases hI.sess with hn | ⟨strat, ring, rr', hcr, hm, hrep⟩
-    · rw [hn] at hrr; simp at hrr
-    · rw [hrep] at hrr
-      simp only [Option.some.injEq, Prod.mk.injEq] at hrr
-      obtain ⟨_, rfl⟩ := hrr
-      exact curRing_hosts _ ring hcr h (replicaMapOf_hosts ring strat rr' hm e he h hh)
-  · rw [hI.fresh ks hks] at hrr
-    exact expected_hosts _ ks q rr hrr e he h hh
-
-/-- `C10_pick_spec` (the spec-backed op `prepl`): after any admissible history, for every fresh keyspace and every
-token, what Pick reads from the policy's snapshot — `meta.replicas[ks].replicasFor(token)`, else
-`meta.tokenRing.GetHostForToken(token)` — is what the specification computes from the CURRENT environment alone:
-Cassandra's SimpleStrategy / NetworkTopologyStrategy placement for the strategy of the schema readable NOW on the ring
-of the CURRENT hosts, the primary owner of the current ring when the schema is unreadable / unusable / Cassandra places
-the token on no node, and "no ring" exactly while no partitioner is known.  In particular the lookup never panics.
-Standing hypotheses of all C10 theorems: ring tokens pairwise distinct (`Sorted`), rf maps with distinct keys. -/
-theorem C10_pick_spec (sk : Nat) (sch : Nat → Option Strat) (evs : List PolEvent) (hev : Admissible evs)
-    (ks : Nat) (hf : ks ∈ (after sk sch evs).fresh) (t : Int)
-    (hs : ∀ ring, PlacementPol.Spec.curRing (after sk sch evs) = some ring → Sorted ring)
-    (hk : ∀ k rfs, (after sk sch evs).schema k = some (.nts rfs) → (rfs.map (·.1)).Nodup) :
-    polLookup (after sk sch evs) ks t = PlacementPol.Spec.lookup (after sk sch evs) ks t :=
-  lookup_of_inv _ (inv_run evs _ (inv_init sk sch) hev) ks hf t hs hk
-
 /-! ## freshness made concrete, and the seeded family as a theorem over all histories -/
 
-theorem update_fresh_schema (s : PolState) (ks : Nat) :
-    ks ∈ (updateReplicas s ks).fresh ∧ (updateReplicas s ks).schema = s.schema := by
-  have hfr : ks ∈ (if ks ∈ s.fresh then s.fresh else s.fresh ++ [ks]) := by
-    by_cases h : ks ∈ s.fresh
-    · simp [h]
-    · simp [h]
-  unfold updateReplicas
-  cases s.schema ks with
-  | none => exact ⟨hfr, rfl⟩
-  | some strat =>
-    cases hr : s.ring with
-    | none => exact ⟨hfr, rfl⟩
-    | some pr =>
-      obtain ⟨p, ring⟩ := pr
-      simp only
-      cases hm : replicaMapOf ring strat with
-      | none => exact ⟨hfr, rfl⟩
-      | some r =>
-        cases r with
-        | error e => exact absurd hm (replicaMapOf_ok ring strat e)
-        | ok rr => exact ⟨hfr, rfl⟩
-
-/-- every ring recomputation re-reads the session keyspace: it is fresh afterwards -/
-theorem recompute_fresh_schema (s : PolState) (hc : s.crashed = false) :
-    s.sessKs ∈ (recompute s).fresh ∧ (recompute s).schema = s.schema := by
-  have h := update_crashed { s with ring := resetTokenRing s, fresh := [] } s.sessKs
-  have hnc : (updateReplicas { s with ring := resetTokenRing s, fresh := [] } s.sessKs).crashed = false := by
-    rw [h]; exact hc
+/-- every ring recomputation re-reads the session keyspace and every keyspace with an entry; nothing else changes the
+schema or loses freshness; a keyspace outside those keeps its (absent) entry -/
+theorem recompute_frame (s : PolState) (hc : s.crashed = false) :
+    (recompute s).schema = s.schema ∧
+    (∀ k, k ∈ (recompute s).fresh ↔ (k ∈ s.fresh ∨ k ∈ allKeyspaces s)) := by
+  obtain ⟨h1, h5, _, _, h8⟩ :=
+    fold_frame (allKeyspaces { s with ring := resetTokenRing s }) { s with ring := resetTokenRing s }
+  have hnc : (updateAllReplicas { s with ring := resetTokenRing s }).crashed = false := by
+    unfold updateAllReplicas
+    rw [h1]; exact hc
   unfold recompute
   simp only [hnc, Bool.false_eq_true, if_false]
-  exact update_fresh_schema { s with ring := resetTokenRing s, fresh := [] } s.sessKs
+  exact ⟨h5, h8⟩
 
 /-- `C10_fresh_after_keyspace_changed`: right after KeyspaceChanged(ks) the keyspace is fresh (any history) -/
 theorem C10_fresh_after_keyspace_changed (sk : Nat) (sch : Nat → Option Strat) (evs : List PolEvent) (ks : Nat) :
@@ -759,7 +991,7 @@ theorem C10_fresh_after_keyspace_changed (sk : Nat) (sch : Nat → Option Strat)
   dsimp only
   have hnc : (updateReplicas (after sk sch evs) ks).crashed = false := by rw [update_crashed]; exact hc
   rw [if_neg (by rw [hnc]; simp)]
-  exact (update_fresh_schema _ ks).1
+  exact ((update_frame _ ks).2.2.2.2.2.2.2 ks).mpr (Or.inr rfl)
 
 /-- the events that rebuild the token ring in state `s` -/
 def RingEvent (s : PolState) : PolEvent → Prop
@@ -769,76 +1001,103 @@ def RingEvent (s : PolState) : PolEvent → Prop
   | .setPartitioner p => s.part ≠ p
   | _ => False
 
-/-- a ring event is a recomputation on a state with the same session keyspace and schema -/
+/-- a ring event is a recomputation on a state with the same session keyspace, schema, entries, ghost field and ring,
+and the same partitioner unless the event is SetPartitioner -/
 theorem ringEvent_recompute (s : PolState) (e : PolEvent) (hc : s.crashed = false) (hr : RingEvent s e) :
-    ∃ s', polStep s e = recompute s' ∧ s'.crashed = false ∧ s'.sessKs = s.sessKs ∧ s'.schema = s.schema := by
+    ∃ s', polStep s e = recompute s' ∧ s'.crashed = false ∧ s'.sessKs = s.sessKs ∧ s'.schema = s.schema ∧
+      s'.replicas = s.replicas ∧ s'.fresh = s.fresh ∧ s'.ring = s.ring ∧
+      (s'.part = s.part ∨ e = .setPartitioner s'.part) := by
   rw [polStep_nocrash s e hc]
   cases e with
   | addHost p =>
     dsimp only
     simp only [RingEvent] at hr
     rw [if_neg (by rw [hr]; simp)]
-    exact ⟨_, rfl, hc, rfl, rfl⟩
-  | addHosts ps => exact ⟨_, rfl, hc, rfl, rfl⟩
+    exact ⟨_, rfl, hc, rfl, rfl, rfl, rfl, rfl, Or.inl rfl⟩
+  | addHosts ps => exact ⟨_, rfl, hc, rfl, rfl, rfl, rfl, rfl, Or.inl rfl⟩
   | removeHost a =>
     dsimp only
     simp only [RingEvent] at hr
     rw [if_pos hr]
-    exact ⟨_, rfl, hc, rfl, rfl⟩
+    exact ⟨_, rfl, hc, rfl, rfl, rfl, rfl, rfl, Or.inl rfl⟩
   | setPartitioner p =>
     dsimp only
     simp only [RingEvent] at hr
     rw [if_neg hr]
-    exact ⟨_, rfl, hc, rfl, rfl⟩
+    exact ⟨_, rfl, hc, rfl, rfl, rfl, rfl, rfl, Or.inr rfl⟩
   | hostUp a => exact absurd hr (by simp [RingEvent])
   | hostDown a => exact absurd hr (by simp [RingEvent])
   | keyspaceChanged ks => exact absurd hr (by simp [RingEvent])
   | setSchema ks v => exact absurd hr (by simp [RingEvent])
 
-/-- `C10_fresh_session_after_ring_event`: right after any event that rebuilds the ring the session keyspace is fresh -/
-theorem C10_fresh_session_after_ring_event (sk : Nat) (sch : Nat → Option Strat) (evs : List PolEvent) (e : PolEvent)
-    (hr : RingEvent (after sk sch evs) e) : sk ∈ (after sk sch (evs ++ [e])).fresh := by
+/-- `C10_fresh_after_ring_event`: right after any event that rebuilds the ring, the session keyspace AND every keyspace
+the policy held an entry for are fresh (their schema was re-read), and no keyspace lost its freshness -/
+theorem C10_fresh_after_ring_event (sk : Nat) (sch : Nat → Option Strat) (evs : List PolEvent) (e : PolEvent)
+    (hr : RingEvent (after sk sch evs) e) (ks : Nat)
+    (hks : ks = sk ∨ ((after sk sch evs).entry ks).isSome = true ∨ ks ∈ (after sk sch evs).fresh) :
+    ks ∈ (after sk sch (evs ++ [e])).fresh := by
   have hc : (after sk sch evs).crashed = false := C10_policy_no_panic sk sch evs
   have : after sk sch (evs ++ [e]) = polStep (after sk sch evs) e := by
     simp [after, polRun, List.foldl_append]
-  obtain ⟨s', h1, h2, h3, _⟩ := ringEvent_recompute _ e hc hr
-  rw [this, h1]
-  have := (recompute_fresh_schema s' h2).1
-  rw [h3, sessKs_after] at this
-  exact this
+  obtain ⟨s', h1, h2, h3, _, h5, h6, _, _⟩ := ringEvent_recompute _ e hc hr
+  rw [this, h1, (recompute_frame s' h2).2 ks]
+  rcases hks with h | h | h
+  · right
+    rw [mem_allKeyspaces, h3, sessKs_after]
+    exact Or.inl h
+  · right
+    apply held_mem_allKeyspaces
+    unfold PolState.entry at h ⊢
+    rw [h5]; exact h
+  · left; rw [h6]; exact h
 
-/-- `C10_unreadable_then_ring_change_drops_entry` (the seeded family, for ALL histories): whatever happened before,
-once the schema of the session keyspace cannot be read, the FIRST event that rebuilds the ring — a node joins, nodes are
-added in bulk, a node leaves, the partitioner is set — leaves the policy WITHOUT an entry for the session keyspace:
+/-- `C10_unreadable_then_ring_change_drops_entry` (the seeded family, for ALL histories and now for EVERY keyspace):
+whatever happened before, once the schema of a keyspace `ks` cannot be read, the FIRST event that rebuilds the ring — a
+node joins, nodes are added in bulk, a node leaves, the partitioner is set — leaves the policy WITHOUT an entry for `ks`:
 the replica map computed for the previous ring does not survive (Pick then starts from the primary owner of the new
 ring, `C10_pick_spec`). -/
 theorem C10_unreadable_then_ring_change_drops_entry (sk : Nat) (sch : Nat → Option Strat) (evs : List PolEvent)
-    (e : PolEvent) (hev : Admissible evs) (he : EvOK e)
-    (hr : RingEvent (after sk sch (evs ++ [.setSchema sk none])) e) :
-    (after sk sch (evs ++ [.setSchema sk none] ++ [e])).replicas sk = none := by
-  have hadm : Admissible (evs ++ [.setSchema sk none] ++ [e]) := by
+    (ks : Nat) (e : PolEvent) (hev : Admissible evs) (he : EvOK e)
+    (hr : RingEvent (after sk sch (evs ++ [.setSchema ks none])) e) :
+    (after sk sch (evs ++ [.setSchema ks none] ++ [e])).entry ks = none := by
+  have hadm : Admissible (evs ++ [.setSchema ks none]) := by
     intro x hx
     simp only [List.mem_append, List.mem_cons, List.mem_nil_iff, or_false] at hx
-    rcases hx with (hx | hx) | hx
+    rcases hx with hx | hx
     · exact hev x hx
     · subst hx; trivial
-    · subst hx; exact he
-  have hfresh := C10_fresh_session_after_ring_event sk sch (evs ++ [.setSchema sk none]) e hr
-  apply C10_unreadable_no_entry sk sch _ hadm sk hfresh
-  -- the schema of sk is unreadable in the final state
-  have hc1 : (after sk sch (evs ++ [.setSchema sk none])).crashed = false := C10_policy_no_panic sk sch _
-  have hstep : after sk sch (evs ++ [.setSchema sk none] ++ [e])
-      = polStep (after sk sch (evs ++ [.setSchema sk none])) e := by
+  have hI : Inv (after sk sch (evs ++ [.setSchema ks none])) := inv_run _ _ (inv_init sk sch) hadm
+  have hstep : after sk sch (evs ++ [.setSchema ks none] ++ [e])
+      = polStep (after sk sch (evs ++ [.setSchema ks none])) e := by
     simp [after, polRun, List.foldl_append]
-  obtain ⟨s', h1, h2, _, h4⟩ := ringEvent_recompute _ e hc1 hr
-  rw [hstep, h1, (recompute_fresh_schema s' h2).2, h4]
-  have hc0 : (after sk sch evs).crashed = false := C10_policy_no_panic sk sch evs
-  have hstep0 : after sk sch (evs ++ [.setSchema sk none]) = polStep (after sk sch evs) (.setSchema sk none) := by
-    simp [after, polRun, List.foldl_append]
-  rw [hstep0, polStep_nocrash _ _ hc0]
-  simp
+  -- the schema of ks is unreadable before the ring event
+  have hsch : (after sk sch (evs ++ [.setSchema ks none])).schema ks = none := by
+    have hc0 : (after sk sch evs).crashed = false := C10_policy_no_panic sk sch evs
+    have hstep0 : after sk sch (evs ++ [.setSchema ks none]) = polStep (after sk sch evs) (.setSchema ks none) := by
+      simp [after, polRun, List.foldl_append]
+    rw [hstep0, polStep_nocrash _ _ hc0]
+    simp
+  obtain ⟨s', h1, h2, _, h4, _, _, h7, h8⟩ := ringEvent_recompute _ e hI.nocrash hr
+  have hsup : s'.part.supported = true ∨ s'.ring = none := by
+    rcases h8 with h8 | h8
+    · by_cases h : s'.part.supported = true
+      · exact Or.inl h
+      · right
+        rw [h7, hI.ring]
+        rw [h8] at h
+        simp [tagged, curRingOf, h]
+    · left
+      rw [h8] at he
+      exact he
+  obtain ⟨_, _, _, _, _, _, r7, _⟩ := recompute_spec s' h2 hsup
+  rw [hstep, h1, r7 ks]
+  split
+  · unfold expected expectedOf
+    rw [h4, hsch]
+    cases curRingOf s'.part s'.hosts <;> rfl
+  · rfl
 
-/-! ## witnesses: non-vacuity, and the counterexamples of the full property (kernel-checked, replayable) -/
+/-! ## witnesses: non-vacuity, the repaired finding as regression, the limits of the hypotheses (kernel-checked, replayable) -/
 
 def hA : PHost := ⟨⟨1, 1, 1⟩, 1, [10]⟩
 def hB : PHost := ⟨⟨2, 1, 1⟩, 2, [30]⟩
@@ -860,9 +1119,9 @@ example : Admissible histUnreadable := by
 /-- before the schema became unreadable the entry is there: 15 ↦ [b, a] on ring a=10, b=30 -/
 example : polLookup (after 0 (schS2 0) (histUnreadable.take 4)) 0 15 = .hosts [⟨2, 1, 1⟩, ⟨1, 1, 1⟩] := by decide
 
-/-- afterwards: the keyspace is fresh, holds NO entry, and the lookups follow the new ring a=10, c=20 -/
-example : 0 ∈ (after 0 (schS2 0) histUnreadable).fresh ∧
-    ((after 0 (schS2 0) histUnreadable).replicas 0).isNone = true ∧
+/-- afterwards: the keyspace is fresh and settled, holds NO entry, and the lookups follow the new ring a=10, c=20 -/
+example : 0 ∈ (after 0 (schS2 0) histUnreadable).fresh ∧ settled (after 0 (schS2 0) histUnreadable) 0 = true ∧
+    ((after 0 (schS2 0) histUnreadable).entry 0).isNone = true ∧
     polLookup (after 0 (schS2 0) histUnreadable) 0 15 = .hosts [⟨3, 1, 1⟩] ∧
     polLookup (after 0 (schS2 0) histUnreadable) 0 25 = .hosts [⟨1, 1, 1⟩] ∧
     PlacementPol.Spec.lookup (after 0 (schS2 0) histUnreadable) 0 25 = .hosts [⟨1, 1, 1⟩] := by decide
@@ -871,45 +1130,65 @@ example : 0 ∈ (after 0 (schS2 0) histUnreadable).fresh ∧
 example : polLookup (after 0 (schS2 0) (histUnreadable ++ [.setSchema 0 (some (.simple 2)), .keyspaceChanged 0])) 0 15
     = .hosts [⟨3, 1, 1⟩, ⟨1, 1, 1⟩] := by decide
 
-/-- KF-C10-4: ks1 (SimpleStrategy 2) is NOT the session keyspace (ks0); its entry is computed by KeyspaceChanged(ks1) on
-ring a=10, b=30; then c=20 joins and b leaves -/
+/-- the history of KF-C10-4: ks1 (SimpleStrategy 2) is NOT the session keyspace (ks0); its entry is computed by
+KeyspaceChanged(ks1) on ring a=10, b=30; then c=20 joins and b leaves -/
 def histOtherKs : List PolEvent :=
   [.setPartitioner .ordered, .addHost hA, .addHost hB, .keyspaceChanged 1, .addHost hC, .removeHost 2]
 
-/-- … token 25 of ks1 is still routed to the departed b first, whereas the current ring a=10, c=20 gives [a, c] -/
-theorem C10_cex_other_keyspace_stale :
-    polLookup (after 0 (schS2 1) histOtherKs) 1 25 = .hosts [⟨2, 1, 1⟩, ⟨1, 1, 1⟩] ∧
-    PlacementPol.Spec.lookup (after 0 (schS2 1) histOtherKs) 1 25 = .hosts [⟨1, 1, 1⟩, ⟨3, 1, 1⟩] ∧
-    1 ∉ (after 0 (schS2 1) histOtherKs).fresh := by decide
+example : Admissible histOtherKs := by
+  intro e he
+  simp only [histOtherKs, List.mem_cons, List.mem_nil_iff, or_false] at he
+  rcases he with h | h | h | h | h | h <;> subst h <;> simp [EvOK, Part.supported]
 
-/-- … and the departed host b is named although the policy's host list is [a, c] -/
-theorem C10_cex_other_keyspace_departed_host :
+/-- KF-C10-4 repaired (non-vacuity of `C10_replicas_all_keyspaces` / `C10_pick_spec` on a keyspace other than the
+session keyspace): the entry of ks1 followed the ring — ks1 is fresh and settled, holds the map of the current ring
+a=10, c=20, names no departed host, and tokens 15 / 25 are routed to [c, a] / [a, c] as the specification says -/
+theorem C10_other_keyspace_follows_ring :
+    1 ∈ (after 0 (schS2 1) histOtherKs).fresh ∧ settled (after 0 (schS2 1) histOtherKs) 1 = true ∧
     (after 0 (schS2 1) histOtherKs).hosts.map (·.h.id) = [1, 3] ∧
-    ((after 0 (schS2 1) histOtherKs).replicas 1).map (·.2) =
-      some [(10, [⟨1, 1, 1⟩, ⟨2, 1, 1⟩]), (30, [⟨2, 1, 1⟩, ⟨1, 1, 1⟩])] := by decide
+    ((after 0 (schS2 1) histOtherKs).entry 1).map (·.2) =
+      some [(10, [⟨1, 1, 1⟩, ⟨3, 1, 1⟩]), (20, [⟨3, 1, 1⟩, ⟨1, 1, 1⟩])] ∧
+    polLookup (after 0 (schS2 1) histOtherKs) 1 15 = .hosts [⟨3, 1, 1⟩, ⟨1, 1, 1⟩] ∧
+    polLookup (after 0 (schS2 1) histOtherKs) 1 25 = .hosts [⟨1, 1, 1⟩, ⟨3, 1, 1⟩] ∧
+    PlacementPol.Spec.lookup (after 0 (schS2 1) histOtherKs) 1 25 = .hosts [⟨1, 1, 1⟩, ⟨3, 1, 1⟩] := by decide
 
-/-- the full property (every entry held = replica map of the current strategy on the current ring) is FALSE for the
-code that exists -/
-theorem C10_cex_full_property_fails :
-    ¬ (∀ (sk : Nat) (sch : Nat → Option Strat) (evs : List PolEvent) (ks : Nat), Admissible evs →
-        ((after sk sch evs).replicas ks).isSome = true →
-        (after sk sch evs).replicas ks = expected (after sk sch evs) ks) := by
-  intro h
-  have h1 := h 0 (schS2 1) histOtherKs 1
-    (by
-      intro e he
-      simp only [histOtherKs, List.mem_cons, List.mem_nil_iff, or_false] at he
-      rcases he with h | h | h | h | h | h <;> subst h <;> simp [EvOK, Part.supported])
-    (by decide)
-  revert h1
-  decide
-
-/-- KF-C10-4, partitioner variant: the stale entry of ks1 holds tokens of the old partitioner's type; after
-SetPartitioner(Murmur3) Pick's `replicasFor` panics in `token.Less` (interface conversion) -/
-theorem C10_cex_other_keyspace_type_panic :
+/-- KF-C10-4 repaired, partitioner variant: after SetPartitioner(Murmur3) the entry of ks1 is recomputed with tokens of
+the new partitioner: no type panic, 25 ↦ [b, a] on ring a=10, b=30 -/
+theorem C10_other_keyspace_partitioner_change :
     polLookup (after 0 (schS2 1)
       [.setPartitioner .ordered, .addHost hA, .addHost hB, .keyspaceChanged 1, .setPartitioner .murmur]) 1 25
-      = .typePanic := by decide
+      = .hosts [⟨2, 1, 1⟩, ⟨1, 1, 1⟩] := by decide
+
+/-- regression, the code BEFORE the repair (`updateReplicas(meta, getKeyspaceName())` only): the same histories gave the
+stale answer [b, a] for token 25 with b departed, and the type panic -/
+def oldRecompute (s : PolState) : PolState :=
+  let s2 := updateReplicas { s with ring := resetTokenRing s } s.sessKs
+  if s2.crashed then { s with crashed := true } else s2
+
+def oldStep (s : PolState) (e : PolEvent) : PolState :=
+  if s.crashed then s else
+  match e with
+  | .addHost p => if hasAddr s.hosts p.addr then s else oldRecompute { s with hosts := s.hosts ++ [p] }
+  | .addHosts ps => oldRecompute { s with hosts := ps.foldl cowAdd s.hosts }
+  | .removeHost a => if hasAddr s.hosts a then oldRecompute { s with hosts := cowRemove s.hosts a } else s
+  | .setPartitioner p => if s.part = p then s else oldRecompute { s with part := p }
+  | e => polStep s e
+
+example : polLookup (histOtherKs.foldl oldStep (polInit 0 (schS2 1))) 1 25 = .hosts [⟨2, 1, 1⟩, ⟨1, 1, 1⟩] ∧
+    (histOtherKs.foldl oldStep (polInit 0 (schS2 1))).hosts.map (·.h.id) = [1, 3] ∧
+    polLookup (([.setPartitioner .ordered, .addHost hA, .addHost hB, .keyspaceChanged 1, .setPartitioner .murmur] :
+      List PolEvent).foldl oldStep (polInit 0 (schS2 1))) 1 25 = .typePanic := by decide
+
+/-- why `C10_pick_spec` asks for `settled` and not only `fresh`: KeyspaceChanged(ks1) processed while the policy has no
+token ring yet leaves no entry, and the later ring events recompute only the session keyspace and the keyspaces WITH an
+entry — ks1 (fresh, schema usable) is served from the primary owner [b] where Cassandra places [b, a], until its next
+KeyspaceChanged; like a keyspace no KeyspaceChanged ever arrived for.  (A Session sets the partitioner before it
+registers for schema events.) -/
+theorem C10_cex_read_before_ring_no_entry :
+    let s := after 0 (schS2 1) [.keyspaceChanged 1, .setPartitioner .ordered, .addHost hA, .addHost hB]
+    1 ∈ s.fresh ∧ settled s 1 = false ∧ s.entry 1 = none ∧
+    polLookup s 1 25 = .hosts [⟨2, 1, 1⟩] ∧
+    PlacementPol.Spec.lookup s 1 25 = .hosts [⟨2, 1, 1⟩, ⟨1, 1, 1⟩] := by decide
 
 /-- outside `Admissible`: SetPartitioner with an unsupported name AFTER a supported one leaves the old ring in place
 (resetTokenRing returns early), so a host added later is not on the ring Pick consults -/
